@@ -1,4 +1,5 @@
 #pragma once
+#include "../../common/verif_hooks.h"
 
 #include "../residual.h"
 
@@ -13,6 +14,7 @@ public:
     void computeResidual(Vector<double>& result, const Vector<double>& rhs, const Vector<double>& x) const override;
 
 private:
+    GMGPOLAR_VERIF_FRIEND
     void applyCircleSection(const int i_r, Vector<double>& result, const Vector<double>& rhs,
                             const Vector<double>& x) const;
     void applyRadialSection(const int i_theta, Vector<double>& result, const Vector<double>& rhs,
